@@ -285,6 +285,7 @@ func (p *listProp) run(rc *RunCtx, lp *ListParams, info *RunInfo) *Verdict {
 			callErr = s.Tags(ctx, lp.Last, fn)
 		}
 	}
+	rc.MaxSteps = 4000 // a listing that needs more exchanges than this is looping
 	res = simrt.Run(rc.NextConfig(), main)
 	rc.Done(res)
 	info.absorb(res)
